@@ -24,6 +24,7 @@ SCRIPTS = {
     "J": [("read",), ("arith",)],
     # array-like operands through every operator
     "K": [("divarr",), ("enter", 0), ("mularr",), ("idivarr",), ("exit",), ("subarr",)],
+    "L": [("mul0d",), ("enter", 0), ("imul0d",), ("exit",), ("mul0d",)],
 }
 
 
@@ -65,15 +66,19 @@ def _task(E, config, h_factory, script, vals, log):
             h = h_factory()
             r = E.attempt(lambda: h + np.asarray([1, 2]))
             log.append(("arith", "refused" if isinstance(r, Raised) else "accepted"))
-        elif op in ("divarr", "mularr", "subarr", "idivarr"):
+        elif op in ("divarr", "mularr", "subarr", "idivarr", "mul0d", "imul0d"):
             h = h_factory()
-            arr = np.asarray([1, 2])
+            arr = np.asarray([1, 2]) if op not in ("mul0d", "imul0d") else np.asarray(2)    # a 0-d array is an array-like operand, not a scalar
 
             def run_arr():
                 if op == "divarr":
                     return h / arr
-                if op == "mularr":
+                if op in ("mularr", "mul0d"):
                     return h * arr
+                if op == "imul0d":
+                    g0 = h
+                    g0 *= arr
+                    return g0
                 if op == "subarr":
                     return h - arr
                 g = h
@@ -103,7 +108,8 @@ def _task(E, config, h_factory, script, vals, log):
                 return g
 
             r = E.attempt(run)
-            log.append((op, "refused" if isinstance(r, Raised) else "accepted"))
+            # third entry: does the operand still hold only non-negative contents (it must after a refusal)
+            log.append((op, "refused" if isinstance(r, Raised) else "accepted", bool((h.frequencies >= 0).all())))
         yield
 
 
@@ -133,12 +139,12 @@ class C19Schedules(Harness):
     bounds_doc = "2 tasks (quick) / 3 tasks with scripts of 4..7 steps from {enter(v), exit, exit-by-exception, assignment, read, array arithmetic, negative factor} incl. nesting; the values v, the main context's value and the environment default are symbolic / enumerated; the schedule (which task takes the next step) is a symbolic integer sequence forked over all interleavings"
 
     def instances(self, tier):
-        pairs = [("A", "B"), ("C", "D"), ("E", "A"), ("B", "C"), ("F", "G"), ("K", "I")] if tier == "quick" else list(itertools.combinations_with_replacement("ABCDE", 2)) + [("F", "G"), ("F", "B"), ("G", "E"), ("F", "F"), ("K", "I"), ("K", "B")]
+        pairs = [("A", "B"), ("C", "D"), ("E", "A"), ("B", "C"), ("F", "G"), ("K", "I"), ("L", "I")] if tier == "quick" else list(itertools.combinations_with_replacement("ABCDE", 2)) + [("F", "G"), ("F", "B"), ("G", "E"), ("F", "F"), ("K", "I"), ("K", "B"), ("L", "I"), ("L", "G")]
         for a, b in pairs:
             for kinds in (("copy", "copy"), ("copy", "fresh"), ("fresh", "fresh")):
                 if tier == "quick" and kinds == ("fresh", "fresh") and (a, b) != ("A", "B"):
                     continue
-                if tier == "quick" and (a, b) in (("F", "G"), ("K", "I")) and kinds != ("copy", "fresh"):
+                if tier == "quick" and (a, b) in (("F", "G"), ("K", "I"), ("L", "I")) and kinds != ("copy", "fresh"):
                     continue
                 yield f"sched-{a}{b}-{kinds[0]}-{kinds[1]}", dict(scripts=[a, b], kinds=list(kinds), env="unset")
         if tier != "quick":
@@ -237,10 +243,13 @@ class C19Schedules(Harness):
             inherited = main_val if kind == "copy" else z3.BoolVal(default)
             vals = [cx.b(v) for v in x["v"][t]]
             ref = _reference(SCRIPTS[s], vals, inherited)
-            for k, (step, (op, got)) in enumerate(zip(SCRIPTS[s], obs["logs"][t])):
+            for k, (step, entry) in enumerate(zip(SCRIPTS[s], obs["logs"][t])):
+                op, got = entry[0], entry[1]
+                if len(entry) > 2 and got == "refused":
+                    yield f"refused_operation_stores_nothing_negative[{t}][{k}]", entry[2] is True
                 if op == "read":
                     yield f"read[{t}][{k}]", cx.b(got) == ref[k]
-                elif op in ("arith", "divarr", "mularr", "subarr", "idivarr"):
+                elif op in ("arith", "divarr", "mularr", "subarr", "idivarr", "mul0d", "imul0d"):
                     yield f"array_operand[{t}][{k}]", z3.BoolVal(got == "accepted") == ref[k]
                 elif op in ("neg", "addneg", "iaddneg", "subover", "setneg"):
                     yield f"negative_content[{t}][{k}]", z3.BoolVal(got == "accepted") == ref[k]
